@@ -24,6 +24,19 @@ use std::collections::HashMap;
 use std::sync::Arc;
 
 /// edge alphabet: (length m, speed kph, grade decimal)
+pub fn edge_types_for(cfg: &Cfg) -> Vec<(f64, f64, f64)> {
+    if cfg.key_decimals == 0 {
+        return edge_types();
+    }
+    let mut v = vec![];
+    for sp in [20.0, 60.0] {
+        for gr in [-0.02, -0.01, 0.0, 0.01] {
+            v.push((1000.0, sp, gr));
+        }
+    }
+    v
+}
+
 pub fn edge_types() -> Vec<(f64, f64, f64)> {
     let mut v = vec![];
     for len in [100.0, 1000.0] {
@@ -85,6 +98,10 @@ pub struct Cfg {
     #[serde(default)]
     pub service_time_unit: Option<TimeUnit>,
     pub real_model: bool,
+    /// decimals kept in the cache key (0: 6). With 2 decimals the edge alphabet is the fine one: grades that are whole key
+    /// steps around zero, so that every edge type has its own key and the cache may not merge any two of them
+    #[serde(default)]
+    pub key_decimals: u32,
 }
 
 struct Built {
@@ -101,7 +118,7 @@ struct Built {
 const REAL_DIR: &str = "/repo/rust/routee-compass-powertrain/src/routee/test";
 
 fn record(cfg: &Cfg, which: &str) -> Result<(PredictionModelRecord, Box<dyn Fn(f64, f64) -> f64 + Send + Sync>), String> {
-    let cache = if cfg.cache { Some(FloatCachePolicy::from_config(FloatCachePolicyConfig { cache_size: if cfg.cache_size == 0 { 64 } else { cfg.cache_size }, key_precisions: vec![6, 6] }).map_err(|e| e.to_string())?) } else { None };
+    let cache = if cfg.cache { Some(FloatCachePolicy::from_config(FloatCachePolicyConfig { cache_size: if cfg.cache_size == 0 { 64 } else { cfg.cache_size }, key_precisions: if cfg.key_decimals == 0 { vec![6, 6] } else { vec![cfg.key_decimals as i32, cfg.key_decimals as i32] } }).map_err(|e| e.to_string())?) } else { None };
     if cfg.real_model {
         let (file, eru) = match which {
             "ice" => ("Toyota_Camry.bin", EnergyRateUnit::GallonsGasolinePerMile),
@@ -156,7 +173,7 @@ fn record(cfg: &Cfg, which: &str) -> Result<(PredictionModelRecord, Box<dyn Fn(f
 }
 
 fn build(cfg: &Cfg) -> Result<Built, String> {
-    let types = edge_types();
+    let types = edge_types_for(cfg);
     // the time model's speed table is stored in the time model's speed unit
     let speeds: Vec<Speed> = types.iter().map(|(_, kph, _)| Speed::new(kph * ru::speed_mps(&SpeedUnit::KilometersPerHour) / ru::speed_mps(&cfg.time_speed_unit))).collect();
     let max = speeds.iter().map(|s| s.as_f64()).fold(0.0, f64::max);
@@ -225,9 +242,9 @@ fn energy_unit_factor(from: &EnergyUnit, to: &EnergyUnit) -> f64 {
 pub fn check_history(cfg: &Cfg, b: &Built, hist: &[usize], st: &mut Stats) {
     st.evaluations += 1;
     st.traces += 1;
-    let types = edge_types();
+    let types = edge_types_for(cfg);
     let tol = if cfg.real_model { 2e-2 } else { 3e-3 };
-    let case = || json!({"cfg": cfg, "edge_history": hist, "edge_alphabet": "index -> (length m, speed kph, grade) over lengths {100,1000} x speeds {20,60} x grades {-0.15,0,0.06}"});
+    let case = || json!({"cfg": cfg, "edge_history": hist, "edge_alphabet": if cfg.key_decimals == 0 { "index -> (length m, speed kph, grade) over lengths {100,1000} x speeds {20,60} x grades {-0.15,0,0.06}" } else { "index -> (1000 m, speed kph, grade) over speeds {20,60} x grades {-0.02,-0.01,0,0.01}" }});
     let size = hist.len() as u64 * 100 + hist.iter().sum::<usize>() as u64;
     let comp_base = format!("{}.{}", cfg.vehicle, if cfg.real_model { "real_model" } else { "synthetic_model" });
     let mut state = match b.sm.initial_state() {
@@ -436,6 +453,7 @@ fn configs(tier: Tier) -> Vec<Cfg> {
                                 // every third configuration: the energy model is configured with another time unit than the time model
                                 service_time_unit: if (mi + ti + ci + ki) % 3 == 1 { Some([TimeUnit::Hours, TimeUnit::Minutes, TimeUnit::Seconds, TimeUnit::Milliseconds][(mi + ki) % 4]) } else { None },
                                 real_model: false,
+                                key_decimals: 0,
                             });
                         }
                     }
@@ -465,6 +483,34 @@ fn configs(tier: Tier) -> Vec<Cfg> {
                     cache_size: if soc == json!(100) { 2 } else { 0 },
                     service_time_unit: if cap > 1.0 { Some(TimeUnit::Seconds) } else { None },
                     real_model: true,
+                    key_decimals: 0,
+                });
+            }
+        }
+    }
+    // cache keys with two decimals and grades that are whole key steps around zero (edge types one step apart on either
+    // side of flat): synthetic and bundled models, every vehicle type
+    for vehicle in ["ice", "bev", "phev"] {
+        for real_model in [false, true] {
+            for csize in [64usize, 2] {
+                out.push(Cfg {
+                    vehicle: vehicle.into(),
+                    model_speed_unit: SpeedUnit::MilesPerHour,
+                    model_grade_unit: GradeUnit::Decimal,
+                    rate_unit: EnergyRateUnit::KilowattHoursPerMile,
+                    time_speed_unit: SpeedUnit::KilometersPerHour,
+                    time_distance_unit: DistanceUnit::Meters,
+                    time_time_unit: TimeUnit::Seconds,
+                    out_distance_unit: DistanceUnit::Kilometers,
+                    grade_table_unit: if csize == 2 { GradeUnit::Percent } else { GradeUnit::Decimal },
+                    capacity_kwh: if real_model { 60.0 } else { 5.0 },
+                    start_soc: json!(80),
+                    adjustment: 1.2,
+                    cache: true,
+                    cache_size: csize,
+                    service_time_unit: None,
+                    real_model,
+                    key_decimals: 2,
                 });
             }
         }
@@ -496,6 +542,7 @@ pub fn run(tier: Tier) -> i32 {
     let n_types = edge_types().len();
     let hists_full = histories(tier.pick(4, 5), n_types);
     let hists_real = histories(2, n_types);
+    let hists_fine = histories(3, 8);
     let n = cfgs.len() as u64;
     let mut st = par_blocks(n, 1, |lo, hi, st| {
         for i in lo..hi {
@@ -509,7 +556,7 @@ pub fn run(tier: Tier) -> i32 {
                     continue;
                 }
             };
-            let hs = if cfg.real_model { &hists_real } else { &hists_full };
+            let hs = if cfg.key_decimals != 0 { &hists_fine } else if cfg.real_model { &hists_real } else { &hists_full };
             // quick: every history of length <= 2 and a third of the longer ones, rotating with the configuration
             for (hi_, h) in hs.iter().enumerate() {
                 if tier == Tier::Quick && h.len() > 2 && (hi_ + i as usize) % 3 != 0 {
@@ -546,6 +593,7 @@ pub fn run(tier: Tier) -> i32 {
                 cache_size: 0,
                 service_time_unit: None,
                 real_model: false,
+                key_decimals: 0,
             };
             // a missing starting charge is an error for the hybrid only (the BEV defaults to full)
             let must_fail = !(bad.is_null() && vehicle == "bev");
@@ -560,7 +608,7 @@ pub fn run(tier: Tier) -> i32 {
     finish(
         &info,
         st,
-        "state = one powertrain configuration (ICE/BEV/PHEV x prediction-model units x time-model units x output units x battery capacity x starting charge x prediction cache {off, 64, 1, 2 entries} x energy model's time unit {same as the time model's, different}, synthetic smooth models incl. negative rates downhill, and the bundled Camry/Bolt/Volt models behind the interpolated model); transition = one traverse_edge of the real EnergyTraversalModel in an edge history (all sequences up to length 4 (quick) / 5 (thorough) over 12 edge types = 2 lengths x 2 speeds x 3 grades); oracle = reference energy and state-of-charge arithmetic with clamp and PHEV mode switch; non-trivial = every configuration",
+        "state = one powertrain configuration (ICE/BEV/PHEV x prediction-model units x time-model units x output units x battery capacity x starting charge x prediction cache {off, 64, 1, 2 entries; keys of 6 decimals, and of 2 decimals over an edge alphabet whose grades are whole key steps -2,-1,0,1} x energy model's time unit {same as the time model's, different}, synthetic smooth models incl. negative rates downhill, and the bundled Camry/Bolt/Volt models behind the interpolated model); transition = one traverse_edge of the real EnergyTraversalModel in an edge history (all sequences up to length 4 (quick) / 5 (thorough) over 12 edge types = 2 lengths x 2 speeds x 3 grades); oracle = reference energy and state-of-charge arithmetic with clamp and PHEV mode switch; non-trivial = every configuration",
         true,
         json!({"configurations": n, "edge_types": n_types, "max_history_length": tier.pick(4, 5), "histories": hists_full.len()}),
         vec![
